@@ -224,7 +224,7 @@ func ruleWhoMayAuthorise(c *Ctx, rid string) {
 			switch {
 			case strings.HasSuffix(fnName(fn), "redis.Conn).SetAuthrized"):
 				c.ok(rid, key, c.P.instrPos(st), "setter")
-			case strings.HasSuffix(fnName(fn), "redis.newConnWith"):
+			case fn == c.P.connConstructor():
 				b, isC := constBool(st.Val)
 				c.check(isC && !b, rid, key, c.P.instrPos(st), "constructor stores false", "the connection constructor does not initialise the flag to false")
 			default:
@@ -1056,7 +1056,7 @@ func ruleTLSGateBeforeLoop(c *Ctx, rid string) {
 		// the connection authenticated is the one served
 		servedConn := strip(auth.Common().Args[1])
 		isOwn := false
-		if call, ok := servedConn.(*ssa.Call); ok && strings.HasSuffix(calleeName(call.Common()), "newConnWith") {
+		if call, ok := servedConn.(*ssa.Call); ok && c.P.isConnConstructorCall(call.Common()) {
 			for _, a2 := range call.Common().Args {
 				if strip(a2) == ssa.Value(tlsPar) {
 					isOwn = true
